@@ -52,7 +52,11 @@ pub fn gen_rd_backend(rng: &mut Rng, sel: u64, benign_rate: u64, max_calls: usiz
             }
         }
     }
-    match sel % 6 {
+    match sel % 8 {
+        6 => RdBackend::StdCursor { cap: None },
+        7 => RdBackend::StdCursor {
+            cap: Some(*rng.pick(&[1usize, 3, 8, 17, 4096])),
+        },
         0 => RdBackend::MemInf,
         1 => RdBackend::MemStrict,
         2 => RdBackend::VecBack,
